@@ -278,6 +278,10 @@ func unitSinks(fn *ssa.Function) []unitSink {
 				out = append(out, unitSink{args[0], 6, "time.UnixMicro argument", c.Pos()})
 			case pkg == "time" && name == "Add" && callee.Signature.Recv() != nil:
 				out = append(out, unitSink{args[1], 9, "time.Time.Add duration", c.Pos()})
+			case pkg == "encoding/binary" && name == "AppendUint64" && len(args) >= 3:
+				out = append(out, unitSink{args[2], 3, "8-byte wire date (milliseconds)", c.Pos()})
+			case pkg == "encoding/binary" && name == "AppendUint32" && len(args) >= 3:
+				out = append(out, unitSink{args[2], 0, "4-byte wire time (seconds)", c.Pos()})
 			case pkg == "encoding/binary" && name == "PutUint64":
 				out = append(out, unitSink{args[2], 3, "8-byte wire date (milliseconds)", c.Pos()})
 			case pkg == "encoding/binary" && name == "PutUint32":
